@@ -28,6 +28,7 @@ Check(i) == LET o == Obs[i] IN
    /\ Chk(SameCached(o), "C18", "SameCachedObject", o)
    /\ Chk(CacheSafe(o), "C18", "FailedFetchWritesNoCache", o)
    /\ Chk(Terminates(o), "C18", "NoCallBlocksForever", o)
+   /\ Chk(FreshAfterRefresh(o), "C18", "RefreshShowsTheCurrentResources", o)
    /\ IF o.trace_checked /\ ~o.trace_accepted THEN Say("DIVERGENCE", "-", "-", o) ELSE TRUE
    /\ IF IsBeh(o) /\ ~(Follows(o) /\ SameOutcome(o)) THEN Say("DIVERGENCE", "-", "-", o) ELSE TRUE
 JInit == l = 1
